@@ -1,6 +1,7 @@
 import PPLV.Lin.Parse
 import PPLV.Powerset.DNF
 import PPLV.Product.Judge
+import PPLV.Powerset.ExactReplay
 
 /-! `pplv_ps`: judges the journals of `harness/c09_powerset.cc` (pointset powersets) and
 `harness/c10_product.cc` (partially reduced products) with the verified K1 procedures.
@@ -1023,7 +1024,9 @@ partial def loop (h : IO.FS.Stream) (ln : Nat) : M Unit := do
   if t1 - t0 > 500 then IO.eprintln s!"slow {ln} {t1 - t0}ms {line.take 80}"
   loop h (ln + 1)
 
-def main (_args : List String) : IO UInt32 := do
+def main (args : List String) : IO UInt32 := do
+  -- `--exact`: stage-2 tie of C09 (replay of the code-shaped model on the journalled disjunct lists)
+  if args.contains "--exact" then return (← PPLV.Powerset.Replay.main)
   let stdin ← IO.getStdin
   let ((), st) ← (loop stdin 1).run {}
   IO.println s!"summary ok={st.nOk} mismatch={st.nBad} skipped={st.nSkip} notes={st.nNote} sampled={st.nSampled} exhaustive={st.nExactEnum}"
